@@ -124,6 +124,7 @@ def step (st : St) : List String → St × String
       | _, _, _ => (st, "bad-op")
   | ["crowd", _] => (st, "skip")
   | ["export"] => (st, "skip")
+  | "reimport" :: _ => (st, "skip")
   | ["dump", n] => match n.toNat? with
       | some n => (st, dump st n)
       | none => (st, "bad-op")
